@@ -17,7 +17,7 @@ RULE = ('a case = 2 layer types x up to 4 patterns each (unconstrained, depthwis
         'in an order other than the library order (unconstrained first)')
 ASSUMPTIONS = [
     'two or more matching constrained patterns is "unspecified" per plinio/cost/README.md: KeyError or '
-    'any matching constrained function accepted',
+    'any matching constrained function accepted, but it must be the same answer for every registration order',
     'a pattern is registered at most once per specification (re-registration semantics are not stated)',
 ]
 COMPONENTS = {'CostSpec, pattern constraints, built-in specs (params, ops, ...), PIT constructor/cost': 'real',
@@ -402,7 +402,16 @@ def execute(case):
                         except KeyError:
                             answers[vname] = 'KeyError'
                     bump('history_probes')
-                    if kindx != 'M2' and len(set(map(str, answers.values()))) != 1:
+                    if kindx == 'M2':
+                        # two constrained patterns match: what is returned is unspecified (conflict error or one of
+                        # the matching functions) but the statement still requires the same answer in every order
+                        bump('history_probes_two_constraints_match')
+                        if len(set(map(str, answers.values()))) != 1:
+                            fail('with two matching constrained patterns the answer depends on the registration order',
+                                 'history:M2:order-dependent',
+                                 f"{t} spec={spec} patterns={[p for p, _ in registered[t]]} answers={answers}")
+                        continue
+                    if len(set(map(str, answers.values()))) != 1:
                         bad = [v for v, a in answers.items() if a not in accept]
                         fail('the same registrations give different answers in different orders',
                              f'history:{kindx}:' + '+'.join(sorted(
